@@ -1,8 +1,52 @@
-From Coq Require Import ZArith.
-From SLU Require Import ReaderModel ReaderProofs.
+From Coq Require Import ZArith List Bool QArith.
+From SLU Require Import ReaderModel ReaderProofs ReaderMtProofs ReaderQProofs ReaderExamples.
+Import ListNotations.
 
-Theorem slice_index_bound : forall perline persize j : Z,
-  (1 <= persize)%Z -> (0 <= j < perline)%Z -> (perline * persize <= 80)%Z ->
-  (0 <= j * persize /\ (j + 1) * persize <= 80 /\ (j + 1) * persize < BUFSZ)%Z.
-Proof. exact ReaderProofs.slice_index_bound. Qed.
-Print Assumptions slice_index_bound.
+Theorem parse_int_format_correct : forall (f : ifmt) (tail : list Z),
+  ifmt_wf f -> parse_int_format (ifmt_text f ++ tail) = Ok (i_per f, i_w f).
+Proof. exact ReaderProofs.parse_int_format_correct. Qed.
+Print Assumptions parse_int_format_correct.
+
+Theorem parse_float_format_correct : forall (f : ffmt) (tail : list Z),
+  ffmt_wf f -> parse_float_format (ffmt_text f ++ tail) = Ok (f_per f, f_w f).
+Proof. exact ReaderProofs.parse_float_format_correct. Qed.
+Print Assumptions parse_float_format_correct.
+
+Theorem field_slicing_total : forall (s : list Z) (n perline persize : Z),
+  (1 <= persize)%Z -> (perline * persize <= 80)%Z ->
+  read_vector s n perline persize <> Err E_OOB /\ read_values s n perline persize <> Err E_OOB.
+Proof. exact ReaderProofs.field_slicing_total. Qed.
+Print Assumptions field_slicing_total.
+
+Theorem read_print_roundtrip_hb : forall (cplx : bool) (h : hb_opts) (M : csc) (tail : list Z),
+  hb_ok cplx h M = true ->
+  parse_hb cplx (print_hb h M ++ tail) = Ok (expected_result (h_val h) M).
+Proof. exact ReaderProofs.read_print_roundtrip_hb. Qed.
+Print Assumptions read_print_roundtrip_hb.
+
+Theorem read_print_roundtrip_rb : forall (cplx : bool) (h : rb_opts) (M : csc) (tail : list Z),
+  rb_ok cplx h M = true ->
+  parse_rb cplx (print_rb h M ++ tail) = Ok (expected_result (b_val h) M).
+Proof. exact ReaderProofs.read_print_roundtrip_rb. Qed.
+Print Assumptions read_print_roundtrip_rb.
+
+Theorem read_print_roundtrip_mt : forall (cplx : bool) (title : list Z) (M : csc) (tail : list Z),
+  mt_ok cplx title M = true ->
+  parse_mt cplx (print_mt cplx title M ++ tail)
+  = Ok (mkres (m_nrow M) (m_ncol M) (m_nnz M) (m_colptr M) (m_rowind M) true (m_vals M)).
+Proof. exact ReaderMtProofs.read_print_roundtrip_mt. Qed.
+Print Assumptions read_print_roundtrip_mt.
+
+Theorem values_read_back_exact_partial : forall (f : ffmt) (vs : list dec),
+  ffmt_ok f = true -> Forall (fun v => dec_fits f v = true) vs ->
+  Forall2 (fun r v => dec_to_Q r == dec_to_Q v) (map (norm_dec f) vs) vs.
+Proof. exact ReaderQProofs.values_read_back_exact_partial. Qed.
+Print Assumptions values_read_back_exact_partial.
+
+Theorem descriptor_scale_comma_refuted :
+  exists d : list Z,
+    d = descr_scale_comma
+    /\ (forall tail, parse_float_format (d ++ tail) = Ok (0%Z, 16%Z))
+    /\ (forall s n w, (0 < n)%Z -> read_values s n 0 w = Err E_HANG).
+Proof. exact ReaderExamples.descriptor_scale_comma_refuted_lemma. Qed.
+Print Assumptions descriptor_scale_comma_refuted.
